@@ -39,8 +39,14 @@ def make_system(kind, norb, nelec, rng, walker_type="uhf", dt=0.01, n_walkers=8,
     hm = hamiltonian.hamiltonian(norb)
     ham_data = hm.build_measurement_intermediates(ham_data, trial, wave_data)
     ham_data = hm.build_propagation_intermediates(ham_data, prop, trial, wave_data)
-    prop_data = prop.init_prop_data(trial, wave_data, ham_data, init_walkers)
-    prop_data["key"] = random.PRNGKey(seed)
+    try:
+        prop_data = prop.init_prop_data(trial, wave_data, ham_data, init_walkers)
+        prop_data["key"] = random.PRNGKey(seed)
+    except ValueError as exc:  # the initial-walker generator may legitimately refuse (e.g. restricted walkers for a spin-broken reference)
+        if init_walkers is not None:
+            raise
+        prop_data = None
+        t["init_refused"] = str(exc)
     return {"t": t, "trial": trial, "wave_data": wave_data, "ham": hm, "ham_data": ham_data, "prop": prop,
             "prop_data": prop_data, "h0": h0, "h1": h1, "chol": chol, "norb": norb, "nelec": tuple(nelec)}
 
